@@ -1576,7 +1576,7 @@ func TestZZVerifC11(t *testing.T) {
 	run := core.NewRun("C11", "exploration",
 		"PRNG schedules over a real FSM+state store+EventPublisher whose publish loop is single-stepped by the monitor (verif hook VerifDrainOne) and real submatview.LocalMaterializer clients (HealthView / ConfigEntryView / ConfigEntryListView / a service-list view) running inside a testing/synctest bubble. Steps: commit of a generated catalog/config-entry/txn write, hand-over of one queued batch, new client (8 subjects: health web, connect web, health web@peerA, health db, service-resolver web, service-resolver *, service-defaults web, service list; 3 tokens; eager or lazy), a lazy client consuming one delivery, ACL change (token/policy/role, linked or not), FSM snapshot, FSM restore (current or older snapshot, with or without queued batches), clock past the snapshot-cache TTL, unsubscribe, reconnect with last index. After every delivery at index d: view == direct store query recorded when d committed; indexes never decrease; closed subscriptions are left; at quiescence view == store. non-trivial = schedule with snapshot and event deliveries and a restore or ACL change; distinct by step list")
 	run.Assume("the gRPC transport (subscribe.Server) is not in the loop: LocalMaterializer reads stream.Subscription directly, as servers' own proxycfg sources do",
-		"every token may read everything (event filtering by permission is C09)",
+		"the anonymous token and token A read everything; token B resolves to a real policy authorizer with partial visibility and its expected answers are the direct query answers filtered with the predicates the endpoints use (CheckServiceNode.CanRead, ConfigEntry.CanRead, ServiceRead); the completeness of event filtering as such is C09",
 		"raft applies commands and restores sequentially: the scheduler never overlaps FSM.Apply/Restore with each other",
 		"the window between memdb commit and Publish inside txn.Commit is not opened separately: for a subscriber it is indistinguishable from 'committed, batch still queued', which the scheduler controls",
 		"result ORDER is not compared (views sort by node/service id), only the set of entries with all their fields")
